@@ -54,7 +54,7 @@ CHECKS = {
             "A frame's bit size is the library's own deemed size; limiter constants are the shipped ones; tolerance 1 us / 1 bit; every scenario starts with a full bucket.",
             "write-boundary ledger + offline all-windows oracle (conservation / spacing / exactly-once / order) on a virtual clock", "§3 C11"),
     "C12": ("fault_enumeration",
-            "Schema-convergence and monotonicity monitors: a real port Gateway with discovery enabled and no schema runs on a virtual clock (incl. the clock the discovery scheduler reads) against a simulated controller whose configuration is ground truth (random subsets of zones 00-0B, classes radiator / zone-valve / electric / mixing, sensors of every permitted type incl. the controller itself or none, 0-8 actuators, any subset of DHW sensor / hot-water valve / heating valve, appliance control none / relay / OpenTherm bridge). The controller announces itself during or after gateway start-up and answers 0005 / 000C / routine RQs with frames built as text. Fault plans over the first polling round: none; every request or reply of one role lost (0005, 000C actuators, sensors, DHW, appliance); 30-60 % of them lost at random; everything lost for the first hour. Judged: schema == configuration within 1 virtual hour (no faults) or 26 virtual hours (faults; the scheduler re-polls every 24 h); sampled every 15 virtual minutes, nothing learned ever disappears or changes and no device appears that the controller did not name.",
+            "Schema-convergence and monotonicity monitors: a real port Gateway with discovery enabled and no schema runs on a virtual clock (incl. the clock the discovery scheduler reads) against a simulated controller whose configuration is ground truth (random subsets of zones 00-0B, classes radiator / zone-valve / electric / mixing, sensors of every permitted type incl. the controller itself or none, 0-8 actuators, any subset of DHW sensor / hot-water valve / heating valve, appliance control none / relay / OpenTherm bridge). The controller announces itself during or after gateway start-up and answers 0005 / 000C / routine RQs with frames built as text. Fault plans over the first polling round: none; every request or reply of one role lost (0005, 000C actuators, sensors, DHW, appliance); 30-60 % of them lost at random; everything lost for the first hour. Judged: schema == configuration within 2 polling rounds (no faults; normally within a minute) or 5 rounds (faults; the scheduler re-polls every 24 h and the statement sets no deadline); sampled every 15 virtual minutes, nothing learned ever disappears or changes and no device appears that the controller did not name.",
             "Simulated controller written from the frame layouts; devices other than the controller never answer; compared items are those the statement lists; write-spacing task slowed to 250 ms; faults confined to the first virtual hour.",
             "reference-configuration differential + monotonicity monitor under fault plans on a virtual clock", "§3 C12"),
     "C13": ("exploration",
